@@ -174,6 +174,17 @@ func (s Site) UpRoot(v ssa.Value) ssa.Value {
 // (its parameters standing for the call's arguments). barrier, when set,
 // stops the traversal at values it accepts (they are not searched further).
 func DependsOnVia(chain []*ssa.Call, v ssa.Value, enter func(*ssa.Function) bool, src func(ssa.Value) bool, barrier func(ssa.Value) bool) bool {
+	return dependsOnVia(chain, v, enter, src, barrier, false)
+}
+
+// DependsOnViaCtl is DependsOnVia that also counts, for an entered callee, the
+// conditions deciding which of its returns is taken (a predicate that returns
+// true/false depends on what it compared).
+func DependsOnViaCtl(chain []*ssa.Call, v ssa.Value, enter func(*ssa.Function) bool, src func(ssa.Value) bool, barrier func(ssa.Value) bool) bool {
+	return dependsOnVia(chain, v, enter, src, barrier, true)
+}
+
+func dependsOnVia(chain []*ssa.Call, v ssa.Value, enter func(*ssa.Function) bool, src func(ssa.Value) bool, barrier func(ssa.Value) bool, ctl bool) bool {
 	type key struct {
 		v ssa.Value
 		d int
@@ -235,6 +246,13 @@ func DependsOnVia(chain []*ssa.Call, v ssa.Value, enter func(*ssa.Function) bool
 						for _, r := range ret.Results {
 							if rec(r, sub, depth+1) {
 								return true
+							}
+						}
+						if ctl {
+							for _, gd := range GuardsOf(b) {
+								if rec(gd.Cond, sub, depth+1) {
+									return true
+								}
 							}
 						}
 					}
